@@ -3,6 +3,7 @@ PROPERTY = "C18"
 LEVEL = "proof"
 FUNCTIONS = ['uxarray.grid.dual._order_nodes',
     'uxarray.grid.dual.construct_faces',
+    'uxarray.grid.dual.construct_dual',
     'uxarray.grid.grid.Grid.get_dual',
     'uxarray.core.dataarray.UxDataArray.get_dual@dims=n_node',
     'uxarray.core.dataarray.UxDataArray.get_dual@dims=time,n_face',
@@ -10,5 +11,5 @@ FUNCTIONS = ['uxarray.grid.dual._order_nodes',
 STANDINS = ["dual"]
 ASSUMPTIONS = []
 EXPLANATION = ""
-LEVEL_TEXT = 'Grid.get_dual / UxDataArray.get_dual proved in dataflow form (dual built from the face centres and the construct_dual faces of THIS grid; values and name kept, face / node dimensions exchanged, on that dual grid); _order_nodes proved with three loop invariants: the ordered ring keeps the starting corner, every entry is one of the faces meeting at the node or padding (no invented corner), padding beyond the valence; every angle the function sorts by is the geometric angle of its corner around the node measured from the first corner (reflected when the corner lies on the positive side of node_0 x node_central), and the corners that are placed appear in STRICTLY INCREASING angle (ghost pick array; the angle is a definitional spec function unfolded only where it is computed); construct_faces proved (loop invariant with a counting function for the row rank): one dual face per primal node of valence >= 3 in node order, row rank(i) starts at the first face of node i, holds only faces meeting at node i and is padding beyond its valence (uses the _order_nodes contract); that no corner is dropped (distinct angles) and consecutive faces share an edge, and the data carry-over are bounded (18 closed + ~19 partial meshes against an independent dual)'
+LEVEL_TEXT = 'Grid.get_dual / UxDataArray.get_dual proved in dataflow form (dual built from the face centres and the construct_dual faces of THIS grid; values and name kept, face / node dimensions exchanged, on that dual grid); _order_nodes proved with three loop invariants: the ordered ring keeps the starting corner, every entry is one of the faces meeting at the node or padding (no invented corner), padding beyond the valence; every angle the function sorts by is the geometric angle of its corner around the node measured from the first corner (reflected when the corner lies on the positive side of node_0 x node_central), and the corners that are placed appear in STRICTLY INCREASING angle (ghost pick array; the angle is a definitional spec function unfolded only where it is computed); construct_dual proved in dataflow form (construct_faces is called with the face centres, node positions and node_face table of THIS grid and the per-row count of real entries as valence); construct_faces proved (loop invariant with a counting function for the row rank): one dual face per primal node of valence >= 3 in node order, row rank(i) starts at the first face of node i, holds only faces meeting at node i and is padding beyond its valence (uses the _order_nodes contract); that no corner is dropped (distinct angles) and consecutive faces share an edge, and the data carry-over are bounded (18 closed + ~19 partial meshes against an independent dual)'
 LEVEL_NOTE = 'A-REAL/A-TRIG for the angle computation (no obligation depends on the angle values); `is not INT_FILL_VALUE` read with CPython semantics; ring completeness needs distinct angles and is not under contract; A-REAL / A-TRIG (acos, sqrt uninterpreted with axioms)'
